@@ -25,7 +25,7 @@ import (
 func init() {
 	mon.Register(&mon.Prop{
 		ID: "C20", Race: true, Level: "fault_enumeration",
-		Rule: "Uniprot XML documents laid out by the harness's own writer (0..20 entries quick, up to 200 thorough; 1..3 accessions (one entry in five of the larger documents: 4..12), 1..2 names, sequence with attributes, further child elements), plain and gzip; faults: truncation at EVERY byte offset of small documents (complete), truncation of the gzip stream, and for larger documents deletion/insertion of '<' or '>', mismatched close tags and byte flips in text and tag names; consumers: sequential (entries to close, then errors; the documented usage) and concurrent, channel capacities 0..100, readers that dribble 1..k bytes; non-trivial = every damaged stream and every document with >= 2 entries; distinct by hash of (stream bytes, consumer kind, capacities)",
+		Rule: "Uniprot XML documents laid out by the harness's own writer (0..20 entries quick, up to 200 thorough; 1..3 accessions (one entry in five of the larger documents: 4..12), 1..2 names, sequence of 1..300 residues (one in 30: 4,000..65,700) with attributes, further child elements), plain and gzip; faults: truncation at EVERY byte offset of small documents (complete), truncation of the gzip stream, and for larger documents deletion/insertion of '<' or '>', mismatched close tags and byte flips in text and tag names; consumers: sequential (entries to close, then errors; the documented usage) and concurrent, channel capacities 0..100, readers that dribble 1..k bytes; non-trivial = every damaged stream and every document with >= 2 entries; distinct by hash of (stream bytes, consumer kind, capacities)",
 		Assumptions: []string{
 			"whether a damaged text is still well-formed, and which entries are complete before the first error, is decided by the harness's own encoding/xml token loop (standard library, not poly); only then are errors optional",
 			"after damage the parser may deliver further (partial) entries and any number >= 1 of errors up to the bound len(input)+100; only the prefix of complete entries is compared",
@@ -116,6 +116,9 @@ func randUniprotDoc(r *rand.Rand, n int, small bool) ([]upEntry, string) {
 		sl := 1 + r.Intn(300)
 		if small {
 			sl = 1 + r.Intn(25)
+		}
+		if !small && r.Intn(30) == 0 {
+			sl = []int{4000 + r.Intn(200), 5000 + r.Intn(30000), 65400 + r.Intn(300)}[r.Intn(3)] // titin-sized sequences
 		}
 		e.Seq = randString(r, "ACDEFGHIKLMNPQRSTVWY", sl)
 		if r.Intn(8) == 0 && sl > 12 {
